@@ -13,6 +13,7 @@
 From PV Require Import Base.Prelude Base.Utf8 Generated.T_lexer Generated.T_files_build Generated.T_require
   Model.Lexer Model.Tokens Model.Parser Model.ParserInst Model.Paths Model.Require Model.FilesInst
   Model.ReqEmbed.
+Close Scope pm_scope.
 
 (* ---------- Lua objects ---------- *)
 Record lua : Set := mkLua { l_toks : list tok; l_root : tree }.
@@ -309,3 +310,17 @@ Definition universe (main_content : bytes) : list bytes :=
   names_of_content main_content ++ flat_map (fun e => names_of_content (snd e)) fs.
 Definition fuel_now (main_content : bytes) : nat := S (length (universe main_content)).
 End Now.
+
+(* ---------- entry points of the extracted runner ---------- *)
+(* the whole build: the __lua__ section of OUT.p8 and the package names in table order *)
+Definition run_build (cwd : bytes) (fs : list (bytes * bytes)) (lua_path main_path main_content : bytes)
+  : result (bytes * list bytes) :=
+  '(r, pk) <- build_lua_now cwd fs lua_path (fuel_now fs main_content) main_path main_content ;;
+  code <- lua_section lua from_lines echo_lines r ;;
+  Ok (code, names lua pk).
+
+(* one file: RequireWalker on it, as loaded with or without {use_game_loop=true} *)
+Definition run_walk (content : bytes) (gl : bool) : result (wres * bytes) :=
+  q <- from_lines (file_lines content) ;;
+  q' <- (if gl then Ok q else strip_lua q) ;;
+  Ok (walk_lua q', concat (echo_lines q')).
